@@ -62,6 +62,7 @@ def test_pkgs(wt):
 
 
 def confirm(d):
+    d = os.path.abspath(d)
     meta = json.load(open(os.path.join(d, "meta.json")))
     res = {"property": meta["property"], "repo_head": sh(["git", "-C", "/repo", "rev-parse", "HEAD"])[1].strip()}
     wt = worktree()
@@ -105,6 +106,7 @@ def confirm(d):
 
 
 def run(d, tier="quick"):
+    d = os.path.abspath(d)
     meta = json.load(open(os.path.join(d, "meta.json")))
     pid = meta["property"]
     wt = worktree()
